@@ -222,13 +222,15 @@ def run(tier, seed):
         ctx.coverage["oracle_failures_total"] = len(fails)
         ctx.coverage["oracle_failures_explained_by_known_findings"] = len(fails) - len(unknown)
         ctx.oblige("oracle:streams ran (%d scripts, %d successful copies, %d duplicates, %d cross-version copies, %d reload checks, "
-                   "%d copy-is-in-the-destination's-files checks, copies of sources with an own file set: %d inside the model, %d into another model)"
+                   "%d copy-is-in-the-destination's-files checks, copies of sources with an own file set: %d inside the model, %d into another model, %d copies inside one model between files of different versions)"
                    % (ost.get("scripts", 0), ost.get("copies_ok", 0), ost.get("duplicates_ok", 0), ost.get("cross_version_copies", 0),
                       ost.get("validation_checks", 0), ost.get("copy_in_file_checks", 0),
-                      ost.get("copies_of_restricted_source_same_model", 0), ost.get("copies_of_restricted_source_other_model", 0)),
+                      ost.get("copies_of_restricted_source_same_model", 0), ost.get("copies_of_restricted_source_other_model", 0),
+                      ost.get("copies_same_model_other_version", 0)),
                    not errs2 and ost.get("copies_ok", 0) > 50 and ost.get("duplicates_ok", 0) > 20 and ost.get("cross_version_copies", 0) > 10
                    and (bool(early or mism or blocked) or (ost.get("copies_of_restricted_source_same_model", 0) > 5
-                                                           and ost.get("copies_of_restricted_source_other_model", 0) > 5)),
+                                                           and ost.get("copies_of_restricted_source_other_model", 0) > 5
+                                                           and ost.get("copies_same_model_other_version", 0) > 5)),
                    "; ".join(errs2)[:400])
         hung_gen = sum(int(m.group(1)) for s, _ in all_shards for l in s.get("gen_stats", []) for m in [re.match(r"STAT hung_generations=(\d+)", l)] if m)
         ctx.oblige("oracle:no copy / duplicate history blocks (hung generations %d, hung oracle scripts %d)" % (hung_gen, ost.get("hung_scripts", 0)),
